@@ -8,7 +8,8 @@ ByteDom1 == {[kind |-> "bytes", bytes |-> s] : s \in SeqsUpTo(0..255, 1)}
 ByteDom2 == {[kind |-> "bytes", bytes |-> <<a, b>>] : a \in {0, 1, 15, 16, 127, 128, 255}, b \in 0..255}
 ShapeDom == {[kind |-> "shape", typ |-> t, len |-> n] : t \in {0, 1, 2, 3, 4, 128, 255}, n \in 0..70}
 DQuick == NibDom(3) \cup BitDom(9) \cup ByteDom1 \cup ShapeDom
-DFull == NibDom(4) \cup BitDom(13) \cup ByteDom1 \cup ByteDom2 \cup ShapeDom
+\* (the thorough domain lives in MC_CodecFull: TLC evaluates every constant definition of the
+\* module it is given when it starts, whether the configuration uses it or not -- two minutes here)
 Row == CASE x.kind = "nib" -> [kind |-> "nib", nib |-> x.nib, hpT |-> HP(x.nib, TRUE), hpF |-> HP(x.nib, FALSE),
                                 bytes |-> IF Len(x.nib) % 2 = 0 THEN Pack(x.nib) ELSE <<>>]
          [] x.kind = "bits" -> [kind |-> "bits", bits |-> x.bits, keypath |-> PackKeypath(x.bits),
